@@ -893,6 +893,16 @@ fn ep_c12(s: &mut S, r: &mut Rng, maxc: usize, maxr: usize) {
             input = coarse_string(r, c, rr);
         }
         if r.chance(1, 4) {
+            // a long run of one character (anything that treats runs specially), with the drawing set / insert mode /
+            // a pen in force half of the time
+            input.push_str(*r.pick(&["", "\x1b(0", "\x1b)0\x0e", "\x1b[4h", "\x1b[?7l", "\x1b[44m", "\x1b(0\x1b[1m"]));
+            let ch = *r.pick(&['q', 'a', 'x', '~', ' ', '世', 'é']);
+            for _ in 0..r.range(14, 40) {
+                input.push(ch);
+            }
+            input.push_str(*r.pick(&["", "\x1b(B", "\x0f", "\x1b[4l", "\x1b[?7h", "\x1b[m"]));
+        }
+        if r.chance(1, 4) {
             input.push_str(&gen::messy_string(r));
             input.push_str(&gen::print(r));
         }
@@ -1226,7 +1236,9 @@ fn ep_c19(s: &mut S, r: &mut Rng, maxc: usize, maxr: usize) {
             "\x1b[1;2;3;4;5;6;7;8;9;10;11;12;13;14;15;16;17;18;19;20;21;22;23;24;25;26;27;28;29;30;31;32;33",
             "\x1bP1;1;1;1;1;1;1;1;1;1;1;1;1;1;1;1;1;1;1;1;1;1;1;1;1;1;1;1;1;1;1;7", "\x1b[38:2:1:2:3:4",
             // more sub-parameters than the parser stores, complete and incomplete
-            "\x1b[1:2:3:4:5:6:7:8", "\x1b[38:2:1:2:3:4:5:6:7m", "\x1b[9:9:9:9:9:9:9:9;9:9:9:9:9:9:9:9:9m", "\x1b[4::::::7", "\x1b[1:1:1:1:1:1:1 q", "\u{9b}5:4:3:2:1:9:8;7:7:7:7:7:7:7:7"]);
+            "\x1b[1:2:3:4:5:6:7:8", "\x1b[38:2:1:2:3:4:5:6:7m", "\x1b[9:9:9:9:9:9:9:9;9:9:9:9:9:9:9:9:9m", "\x1b[4::::::7", "\x1b[1:1:1:1:1:1:1 q", "\u{9b}5:4:3:2:1:9:8;7:7:7:7:7:7:7:7",
+            // a single parameter whose first sub-parameter is 0 (looks "clear" when only the first part is examined)
+            "\x1b[0:1m", "\x1b[00:7:9", "\x1b[0:5", "\u{9b}:3m"]);
         s.feed_str(a, t, true);
     }
     let t = if r.chance(1, 4) { "\x1b\x01c" } else { "\x1bc" };
@@ -1244,7 +1256,8 @@ fn ep_c19(s: &mut S, r: &mut Rng, maxc: usize, maxr: usize) {
         let t = match r.n(5) {
             0 | 1 => r.pick(PROBES).to_string(),
             2 if r.chance(1, 2) => format!("\x1b[{}mX", ";".repeat(r.range(29, 33))), // reads every parameter slot
-            2 => r.pick(&["\x1b[38:5:3mX", "\x1b[48:2:1:2:3mX", "\x1b[0;38:2::1:2:3mX", "\x1b[;48:5:9mX", "\x1b[38:2:::mX", "\x1b[4:mX"]).to_string(), // reads the sub-parameter slots
+            2 => r.pick(&["\x1b[38:5:3mX", "\x1b[48:2:1:2:3mX", "\x1b[0;38:2::1:2:3mX", "\x1b[;48:5:9mX", "\x1b[38:2:::mX", "\x1b[4:mX",
+                         "\x1b[1mX", "\x1b[5C", "\x1b[7mY\x1b[2D"]).to_string(), // reads the sub-parameter slots / a single plain parameter
             _ => gen::token(r, &wt, c, rr),
         };
         s.feed_str(a, &t, true);
@@ -1327,6 +1340,26 @@ fn ep_c08x(s: &mut S, r: &mut Rng, shard: u64, shards: u64) {
 /// x parameter shapes, each as ONE feed_str call on a terminal in a non-default state.  Whether a
 /// sequence is inert is decided by the specification (TLC), not here.
 fn ep_c20x(s: &mut S, r: &mut Rng, _maxc: usize, _maxr: usize, shard: u64, shards: u64) {
+    if shard == 0 {
+        // finals >= U+00A0 (handled like 'A', i.e. nothing - whatever their low byte looks like), after ESC, after
+        // ESC + intermediate and after CSI with parameters
+        s.episode("C20X");
+        let slot = s.new_vt(5, 4, 0);
+        s.feed_str(slot, "\x1b[2;3r\x1b[?25l\x1b[31mab\r\ncd\x1b[2;2H", true);
+        for base in [0x100u32, 0x4e00, 0x1f600] {
+            for low in 0x40u32..=0x7e {
+                if let Some(ch) = char::from_u32(base + low) {
+                    if !s.alive(slot) {
+                        break;
+                    }
+                    s.feed_str(slot, &format!("\x1b{}", ch), true);
+                    s.feed_str(slot, &format!("\x1b({}", ch), true);
+                    s.feed_str(slot, &format!("\x1b[2{}", ch), true);
+                    s.feed_str(slot, &format!("\x1b[?6{}", ch), true);
+                }
+            }
+        }
+    }
     let params = ["", "4", "20", "1", "6", "7", "25", "1047", "1049", "2", "3", "5", "0", "1;1", "4;20", "8;2;2", "65535"];
     let prefixes = ["", "?", "<", "=", ">"];
     let inters = ["", " ", "!", "$", "#", "! ", "!$"];
@@ -1361,7 +1394,7 @@ fn ep_c20x(s: &mut S, r: &mut Rng, _maxc: usize, _maxr: usize, shard: u64, shard
 /// feed_str call, once on a cleared pen and once on a pen with everything set.
 /// The token list of C03S: (parameter text, final, private marker).
 fn shape_list() -> Vec<(String, &'static str, &'static str)> {
-    let items = ["", "0", "1", "2", "5", "7", "38", "48", "2:9", "5:1", "38:5:3", "48:2:1:2:3", "38:2::1:2:3", "1:2:3:4:5:6:7", "::::::", "4:3:::::5:"];
+    let items = ["", "0", "1", "2", "5", "7", "38", "48", "2:9", "5:1", "38:5:3", "48:2:1:2:3", "38:2::1:2:3", "1:2:3:4:5:6:7", "::::::", "4:3:::::5:", "0:1", "00:7:9"];
     let small = ["", "0", "1", "2", "5", "7", "2:9", "5:1"];
     let mut toks: Vec<(String, &'static str, &'static str)> = Vec::new();
     for a in items {
